@@ -267,6 +267,10 @@ func (g *iofGen) value(sc *iofScope, x ast.Expr) iofVal {
 			if l.kind != r.kind {
 				g.refuse(x, "comparison of a %s with a %s", l.kind, r.kind)
 			}
+			// a constant goes to the right (`os.Stdin == d.infile` reads as `d.infile = io.stdin`)
+			if isConst := func(t string) bool { return strings.HasPrefix(t, "io.") || strings.HasPrefix(t, "\"") }; isConst(l.term) && !isConst(r.term) {
+				l, r = r, l
+			}
 			switch l.kind {
 			case "file", "cacheptr", "str", "int", "bool":
 				op := "="
@@ -731,13 +735,25 @@ func (g *iofGen) runDefers(defers []iofDefer, ind string) string {
 }
 
 func (g *iofGen) ret(sc *iofScope, defers []iofDefer, n ast.Node, results []ast.Expr, ind string) string {
-	if len(results) != len(g.results) {
-		g.refuse(n, "return arity")
-	}
 	out := ""
 	parts := []string{"s"}
 	if g.method {
 		parts = append(parts, "d")
+	}
+	if len(results) == 1 && len(g.results) > 1 {
+		// return f(x): the results of one call are the results of the function
+		if ef, ok := g.effect(sc, results[0]); ok && !ef.retD && strings.Join(ef.res, ",") == strings.Join(g.results, ",") {
+			var names []string
+			for i := range ef.res {
+				names = append(names, fmt.Sprintf("r%d_", i))
+			}
+			out += ind + g.bindEffect(results[0], ef, names) + "\n"
+			out += g.runDefers(defers, ind)
+			return out + ind + "(" + strings.Join(append(parts, names...), ", ") + ")"
+		}
+	}
+	if len(results) != len(g.results) {
+		g.refuse(n, "return arity")
 	}
 	for i, r := range results {
 		if ef, ok := g.effect(sc, r); ok {
